@@ -13,7 +13,7 @@
    per-step outputs `outs`; `no_relog k ops` = no log with key k is delivered in ops; `early_heads c k p pre` = every head
    in pre is below height+expected, or is inside the abandonment window with a transient failure of the receipt lookup;
    `expected_of wait safe p` = if wait && not safe then consistency level else 0 (extracted). *)
-From Coq Require Import List ZArith Bool Lia.
+From Coq Require Import List ZArith Bool Lia Sorted.
 From WH Require Import gen.Extracted model.EvmWatcher proofs.EvmWatcherProofs.
 Import ListNotations.
 Open Scope Z_scope.
@@ -127,6 +127,22 @@ Proof. exact run_fate. Qed.
 Theorem C10_pending_keys_distinct : forall c ops, NoDup (keys (fst (run c init ops))).
 Proof. intros c ops. apply nodup_run. constructor. Qed.
 
+(* ---------------------------------------------------------------- the block poller that produces the observed heads (poller.go) *)
+(* whatever the node answers (errors, older blocks, jumps): the published heads are strictly increasing, each is a head the
+   node served in that poll, none carries the Safe flag, and lastBlock ends at least as high as every answer *)
+Theorem C10_poller_heads : forall answers last,
+  last <= fst (poll_seq last answers) /\
+  (forall a, In (Some a) answers -> a <= fst (poll_seq last answers)) /\
+  StronglySorted Z.lt (map fst (snd (poll_seq last answers))) /\
+  Forall (fun h => last < fst h /\ fst h <= fst (poll_seq last answers) /\ In (Some (fst h)) answers /\ snd h = false)
+         (snd (poll_seq last answers)).
+Proof. exact poll_seq_spec. Qed.
+
+(* hence on polled heads the scan waits for the full consistency level in wait mode, and for nothing otherwise *)
+Theorem C10_polled_head_expected : forall last answers n sf wait p,
+  In (n, sf) (snd (poll_seq last answers)) -> expected_of wait sf p = if wait then m_cl (p_msg p) else 0.
+Proof. exact polled_head_expected. Qed.
+
 (* ---------------------------------------------------------------- the order of the tests before repo commit 40922fc violated the liveness clause *)
 Theorem C10_original_order_refuted :
   (* log at block 1000, level 1, first observed head 1065, receipt unchanged *)
@@ -140,6 +156,12 @@ Proof.
   repeat apply conj; assumption.
 Qed.
 
+(* ---------------------------------------------------------------- why the range hypotheses are there: uint64 wrap-around *)
+(* a log reported for block 2^64 - 1 with level 1 is "deep enough" at head 5 in the source's arithmetic *)
+Theorem C10_range_hypothesis_needed :
+  scan_entry true false 5 ex_good ex_key (mkP (p_msg ex_pm) (two64 - 1)) = (false, [Looked ex_key; Confirmed ex_key (p_msg ex_pm)]).
+Proof. vm_compute. reflexivity. Qed.
+
 (* ================================================================ the hypotheses are satisfiable: concrete instances *)
 Definition exc : cfg := mkCfg true 1 4.
 Definition exk2 : key := mkKey 2 2 1 2.
@@ -147,8 +169,9 @@ Definition exs : pending := [(ex_key, ex_pm); (exk2, mkP (mkMsg 2 1600000014 15 
 Definition ex_err : key -> rans := fun _ => mkAns None EOther.
 Definition ex_ok : key -> rans := fun k => mkAns (Some (1, k_bh k)) ENone.
 Definition ex_pre : list op := [OHead 990 false ex_ok; OLog (mkEv 7 7 1000 1 7 1 50 1 7) (Some 1600000049); OHead 1001 false ex_err;
-                                OReobs (Some 1001) (Some 1001) None None; OHead 1030 false ex_err].
-Definition ex_post : list op := [OHead 1066 false ex_ok; OHead 1300 false ex_err].
+                                OReobs (Some 1001) (Some 1001) None None; OHead (1000 + evm_max_wait) false ex_err].
+Definition ex_post : list op := [OHead (1006 + evm_max_wait) false ex_ok; OHead (1300 + evm_max_wait) false ex_err].
+Definition ex_n : Z := 1005 + evm_max_wait.   (* far beyond the depth 1001, and past the window *)
 
 Lemma ex_nodup : NoDup (keys exs).
 Proof.
@@ -174,61 +197,65 @@ Proof.
   destruct H as [H|[H|[H|[H|[H|H]]]]]; try discriminate H; try contradiction; inversion H; subst.
   - split; [unfold two64; lia|]. left. cbn. lia.
   - split; [unfold two64; lia|]. right. split; [unfold evm_max_wait; cbn; lia|reflexivity].
-  - split; [unfold two64; lia|]. right. split; [unfold evm_max_wait; cbn; lia|reflexivity].
+  - split; [unfold two64, evm_max_wait; lia|]. right. split; [unfold evm_max_wait; cbn; lia|reflexivity].
 Qed.
+Lemma ex_n_range : 0 <= ex_n < two64.
+Proof. unfold ex_n, two64, evm_max_wait. lia. Qed.
+Lemma ex_n_deep : p_height ex_pm + expected_of (c_wait exc) false ex_pm <= ex_n.
+Proof. unfold ex_n, evm_max_wait. cbn. lia. Qed.
 
-(* log at block 1000 (level 1): heads 990 (shallow), 1001 and 1030 (lookup fails transiently), then 1065 - sixty-four
-   blocks past the depth - with the receipt unchanged: forwarded there, exactly once, in a state that holds another entry *)
+(* log at block 1000 (level 1): heads 990 (shallow), 1001 and 1000 + maxWait (lookup fails transiently), then
+   1005 + maxWait - far past the depth and even past the window - with the receipt unchanged: forwarded there, exactly
+   once, in a state that holds another entry *)
 Example C10_example_forwarded_exactly_once :
-  let r := run exc exs (ex_pre ++ OHead 1065 false ex_ok :: ex_post) in
+  let r := run exc exs (ex_pre ++ OHead ex_n false ex_ok :: ex_post) in
   decisions ex_key (snd r) = [Confirmed ex_key (p_msg ex_pm)] /\
   In (Confirmed ex_key (p_msg ex_pm)) (nth (length ex_pre) (snd r) []) /\
   find ex_key (fst r) = None.
 Proof.
-  apply (C10_forwarded_exactly_once exc exs ex_key ex_pm ex_pre 1065 false ex_ok ex_post).
+  apply (C10_forwarded_exactly_once exc exs ex_key ex_pm ex_pre ex_n false ex_ok ex_post).
   - exact ex_nodup.
   - reflexivity.
   - exact ex_wf.
   - exact ex_norelog_pre.
   - exact ex_norelog_post.
   - exact ex_early.
-  - unfold two64. lia.
-  - cbn. lia.
+  - exact ex_n_range.
+  - exact ex_n_deep.
   - reflexivity.
 Qed.
 
 (* the same history ending in an orphaned / failed / re-mined transaction *)
 Example C10_example_dropped :
-  decisions ex_key (snd (run exc exs (ex_pre ++ OHead 1065 false (fun _ => mkAns None ENotFound) :: ex_post))) = [Dropped ex_key WOrphan] /\
-  decisions ex_key (snd (run exc exs (ex_pre ++ OHead 1065 false (fun _ => mkAns (Some (0, 1)) ENone) :: ex_post))) = [Dropped ex_key WFailed] /\
-  decisions ex_key (snd (run exc exs (ex_pre ++ OHead 1065 false (fun _ => mkAns (Some (1, 77)) ENone) :: ex_post))) = [Dropped ex_key WRemined].
+  decisions ex_key (snd (run exc exs (ex_pre ++ OHead ex_n false (fun _ => mkAns None ENotFound) :: ex_post))) = [Dropped ex_key WOrphan] /\
+  decisions ex_key (snd (run exc exs (ex_pre ++ OHead ex_n false (fun _ => mkAns (Some (0, 1)) ENone) :: ex_post))) = [Dropped ex_key WFailed] /\
+  decisions ex_key (snd (run exc exs (ex_pre ++ OHead ex_n false (fun _ => mkAns (Some (1, 77)) ENone) :: ex_post))) = [Dropped ex_key WRemined].
 Proof.
-  assert (Hn : 0 <= 1065 < two64) by (unfold two64; lia).
-  assert (Hd : p_height ex_pm + expected_of (c_wait exc) false ex_pm <= 1065) by (cbn; lia).
+  pose proof ex_n_range as Hn. pose proof ex_n_deep as Hd.
   repeat apply conj.
-  - destruct (C10_dropped exc exs ex_key ex_pm ex_pre 1065 false (fun _ => mkAns None ENotFound) ex_post
+  - destruct (C10_dropped exc exs ex_key ex_pm ex_pre ex_n false (fun _ => mkAns None ENotFound) ex_post
                 ex_nodup eq_refl ex_wf ex_norelog_pre ex_norelog_post ex_early Hn Hd) as [A _].
     apply A. split; reflexivity.
-  - destruct (C10_dropped exc exs ex_key ex_pm ex_pre 1065 false (fun _ => mkAns (Some (0, 1)) ENone) ex_post
+  - destruct (C10_dropped exc exs ex_key ex_pm ex_pre ex_n false (fun _ => mkAns (Some (0, 1)) ENone) ex_post
                 ex_nodup eq_refl ex_wf ex_norelog_pre ex_norelog_post ex_early Hn Hd) as [_ [A _]].
     apply (A 0 1); [reflexivity|lia].
-  - destruct (C10_dropped exc exs ex_key ex_pm ex_pre 1065 false (fun _ => mkAns (Some (1, 77)) ENone) ex_post
+  - destruct (C10_dropped exc exs ex_key ex_pm ex_pre ex_n false (fun _ => mkAns (Some (1, 77)) ENone) ex_post
                 ex_nodup eq_refl ex_wf ex_norelog_pre ex_norelog_post ex_early Hn Hd) as [_ [_ A]].
     apply (A 77); [reflexivity|cbn; lia].
 Qed.
 
-(* abandonment: the lookups at 1001, 1030 and 1061 (= 1000 + 1 + 60) all fail transiently *)
+(* abandonment: the lookups at 1001, 1000 + maxWait and 1001 + maxWait (the end of the window) all fail transiently *)
 Example C10_example_abandoned :
-  In (Dropped ex_key WTimeout) (nth (length ex_pre) (snd (run exc exs (ex_pre ++ OHead 1061 false ex_err :: ex_post))) []) /\
-  (is_transient (a_err (ex_err ex_key)) = true /\ p_height ex_pm + expected_of (c_wait exc) false ex_pm + evm_max_wait <= 1061).
+  In (Dropped ex_key WTimeout) (nth (length ex_pre) (snd (run exc exs (ex_pre ++ OHead (1001 + evm_max_wait) false ex_err :: ex_post))) []) /\
+  (is_transient (a_err (ex_err ex_key)) = true /\ p_height ex_pm + expected_of (c_wait exc) false ex_pm + evm_max_wait <= 1001 + evm_max_wait).
 Proof.
-  assert (H : In (Dropped ex_key WTimeout) (nth (length ex_pre) (snd (run exc exs (ex_pre ++ OHead 1061 false ex_err :: ex_post))) [])).
+  assert (H : In (Dropped ex_key WTimeout) (nth (length ex_pre) (snd (run exc exs (ex_pre ++ OHead (1001 + evm_max_wait) false ex_err :: ex_post))) [])).
   { vm_compute. repeat ((left; reflexivity) || right). }
   split; [exact H|].
-  destruct (C10_abandoned_only_after_window exc exs ex_key ex_pm ex_pre 1061 false ex_err ex_post
+  destruct (C10_abandoned_only_after_window exc exs ex_key ex_pm ex_pre (1001 + evm_max_wait) false ex_err ex_post
               ex_nodup eq_refl ex_wf ex_norelog_pre) as [A [B _]].
   - intros n' safe' orc' Hin. destruct (ex_early n' safe' orc' Hin) as [R _]. exact R.
-  - unfold two64. lia.
+  - unfold two64, evm_max_wait. lia.
   - exact H.
   - split; assumption.
 Qed.
@@ -263,6 +290,14 @@ Example C10_example_reobserve :
   reobserve exc (Some 1002) (Some 1002) (Some (mkRcpt 0 (Some 1000) (r_logs ex_rcpt))) (Some 1600000007) = [].
 Proof. vm_compute. repeat apply conj; reflexivity. Qed.
 
+(* the poller: errors, a stale answer, a jump of 64 blocks, the same block again *)
+Example C10_example_poller :
+  poll_seq 990 [None; Some 989; Some 991; Some 1065; Some 1065; None; Some 1066] = (1066, [(991, false); (1065, false); (1066, false)]) /\
+  poll_tick true 990 [None; None; Some 1065] = (1065, [(1065, false)], false) /\
+  poll_tick true 990 [None; None; None; Some 1065] = (990, [], true) /\
+  poll_tick false 990 [Some 1065] = (990, [], false).
+Proof. vm_compute. repeat apply conj; reflexivity. Qed.
+
 Print Assumptions C10_scan_forward_safe.
 Print Assumptions C10_scan_step_safe.
 Print Assumptions C10_reobserve_safe.
@@ -275,4 +310,7 @@ Print Assumptions C10_abandoned_only_after_window.
 Print Assumptions C10_at_most_once.
 Print Assumptions C10_key_independence.
 Print Assumptions C10_pending_keys_distinct.
+Print Assumptions C10_poller_heads.
+Print Assumptions C10_polled_head_expected.
 Print Assumptions C10_original_order_refuted.
+Print Assumptions C10_range_hypothesis_needed.
